@@ -77,8 +77,8 @@ fn item<C: Suite>(ctx: &mut Ctx, n: u16, t: u16, kind: &str) {
     for me in &sorted {
         let (r1, r2) = dkg_inbox(&run_a, me);
         // control: the unfaulted inputs are accepted
-        let ok2 = dkg::part2(run_a.r1_secret[me].clone(), &r1);
-        let ok3 = dkg::part3(&run_a.r2_secret[me], &r1, &r2);
+        let ok2 = C::api_dkg_part2(run_a.r1_secret[me].clone(), &r1);
+        let ok3 = C::api_dkg_part3(&run_a.r2_secret[me], &r1, &r2);
         if ok2.is_err() || ok3.is_err() {
             ctx.viol("honest-dkg-failed", "control", json!({"n": n, "t": t, "me": id_hex::<C>(me)}));
             continue;
@@ -233,12 +233,12 @@ fn judge<C: Suite>(ctx: &mut Ctx, a: &DkgRun<C>, me: &Identifier<C>, sender: &Id
     };
     ctx.count("faults_injected");
     ctx.class(format!("{}/n={n}/t={t}", f.class));
-    let p2 = dkg::part2(a.r1_secret[me].clone(), &f.r1_for_part2);
+    let p2 = C::api_dkg_part2(a.r1_secret[me].clone(), &f.r1_for_part2);
     match (f.step, p2) {
         (Step::Part2, Ok(_)) => {
             ctx.viol("faulty-contribution-accepted", &f.class, d("part2 returned Ok", json!({})));
             // does it at least fail later? (recorded, the verdict above stands)
-            if dkg::part3(&a.r2_secret[me], &f.r1_for_part3, &f.r2).is_ok() {
+            if C::api_dkg_part3(&a.r2_secret[me], &f.r1_for_part3, &f.r2).is_ok() {
                 ctx.viol("faulty-contribution-accepted", &format!("{}/key-material-produced", f.class), d("part3 returned key material as well", json!({})));
             }
         }
@@ -246,7 +246,7 @@ fn judge<C: Suite>(ctx: &mut Ctx, a: &DkgRun<C>, me: &Identifier<C>, sender: &Id
         (Step::Part3, Err(e)) => {
             ctx.viol("honest-step-refused", &f.class, d("part2 refused although the fault is not consumed before part3", json!({"err": format!("{e:?}")})));
         }
-        (Step::Part3, Ok((sec2, _out))) => match dkg::part3(&sec2, &f.r1_for_part3, &f.r2) {
+        (Step::Part3, Ok((sec2, _out))) => match C::api_dkg_part3(&sec2, &f.r1_for_part3, &f.r2) {
             Ok(_) => ctx.viol("faulty-contribution-accepted", &f.class, d("part3 returned key material", json!({}))),
             Err(e) => check_err(ctx, &e, "part3"),
         },
